@@ -1161,7 +1161,8 @@ def _check(run, tmpdir):
                 for i in res[0]:
                     corr_bad.append('ctx spec: model ctx_ok disagrees with CPython validator (%s) on %s' % (ccases[i][3], ccases[i][2]))
         run.count(len(icases) + len(acases) + len(pcases) + len(ccases))
-        run.extra['traces_validated_against_impl'] = {'templates.replace (pipeline)': sum(1 for r in imeta.values() if not any(r is x for x in syn_calls)),
+        run.extra['traces_validated_against_impl'] = len(icases) + len(acases) + len(pcases) + len(ccases)
+        run.extra['traces_validated_against_impl_by_kind'] = {'templates.replace (pipeline)': sum(1 for r in imeta.values() if not any(r is x for x in syn_calls)),
                                                       'templates.replace (synthetic)': sum(1 for r in imeta.values() if any(r is x for x in syn_calls)),
                                                       'ContextAdjuster': len(acases), 'copy_clean': len(pcases),
                                                       'ctx_ok vs CPython validator': len(ccases)}
